@@ -5,6 +5,7 @@ use crate::common::*;
 use crate::gen::{self, Argv};
 use crate::myresp::{self, Tree};
 use bytes::Bytes;
+use rand::seq::SliceRandom as _;
 use rand::Rng as _;
 use redis_sim::io::TimeSource;
 use redis_sim::production::{ShardConfig, ShardedActorState};
@@ -453,6 +454,24 @@ fn gen_ops(rng: &mut Rng, len: usize) -> Vec<Op> {
     let mut now = EPOCH_MS;
     let keypool: [&str; 10] = ["k1", "k2", "k3", "k4", "{t}a", "{t}b", "user:1000", "x", "yy", "zzz"];
     for _ in 0..len {
+        // a block of its own: a few keys get deadlines, the clock passes all of them, one or two shards are spoken to (or
+        // none), and then the whole node is asked (DBSIZE, then a read of one of the expired keys through some path)
+        if rng.gen_range(0..25) == 0 {
+            let mut ks: Vec<&str> = keypool.to_vec();
+            ks.shuffle(rng);
+            let nk = rng.gen_range(2..6);
+            for k in &ks[..nk] {
+                ops.push(Op::Cmd(vec![b("SET"), b(k), b("soon-gone"), b("PX"), b(["50", "100", "999"][rng.gen_range(0..3)])], Path::Generic));
+            }
+            now += 1000;
+            ops.push(Op::Advance(1000));
+            for k in &ks[nk..nk + rng.gen_range(0..3)] {
+                ops.push(Op::Cmd(if rng.gen_bool(0.5) { vec![b("GET"), b(k)] } else { vec![b("EXISTS"), b(k)] }, Path::Generic));
+            }
+            ops.push(Op::Cmd(vec![b("DBSIZE")], Path::Generic));
+            ops.push(Op::Cmd(vec![b("GET"), b(ks[0])], [Path::Generic, Path::Fast, Path::Pooled, Path::Batch][rng.gen_range(0..4)].clone()));
+            continue;
+        }
         match rng.gen_range(0..30) {
             0 | 1 => {
                 let ms = gen::gen_advance(rng);
